@@ -178,10 +178,10 @@ def run_rows_case(case):
 
 def run_views_case(case):
     """classify_by_sections with ill-typed filters / variables."""
-    def views_text(skip=()):
+    def views_text(skip=(), only=None):
         lines = [f'{n} = {e}' for n, e in case.get('variables', [])] + ['']
         for i, v in enumerate(case['views']):
-            if i in skip:
+            if i in skip or (only is not None and i != only):
                 continue
             lines.append(f'[{v["name"]}]')
             for n, e in v.get('locals', []):
@@ -208,7 +208,16 @@ def run_views_case(case):
     # which (view, merchant) filter evaluations fail, recorded from the implementation's own evaluator while
     # classify_by_sections runs (section_engine calls expr_parser.evaluate_ast through the module attribute)
     def failing():
-        cfg = SE.parse_sections(views_text())
+        # a view "fails for a merchant" when its filter cannot be evaluated with the view ALONE in the file (so that what
+        # other views do cannot make a healthy view look failing)
+        bad = []
+        for i in range(len(case['views'])):
+            for pair in failing_in(views_text(only=i)):
+                bad.append([i, pair[1]])
+        return bad
+
+    def failing_in(text):
+        cfg = SE.parse_sections(text)
         # identical filter texts share one cached AST object, so the failing view is identified by wrapping
         # evaluate_section_filter (which classify_merchants calls through the module attribute), not by the AST
         idx = {id(sec): i for i, sec in enumerate(cfg.sections)}
